@@ -14,6 +14,9 @@ External contracts (trusted, spot-checked numerically by the harness on every ca
 import MenpoModel.Lemmas.C17Mask
 import MenpoModel.Lemmas.C17Boundary
 import MenpoModel.Lemmas.C17Geom
+import MenpoModel.Lemmas.C17Vertex
+import MenpoModel.Lemmas.C17Edges
+import MenpoModel.Lemmas.C17Grid
 
 namespace MenpoModel.C17
 
@@ -445,5 +448,665 @@ theorem unique_edges_once (ts : List Tri) :
 
 example : edgeIndices [(0, 1, 2), (2, 1, 3)] = [(0, 1), (1, 2), (2, 0), (2, 1), (1, 3), (3, 2)] ∧
     uniqueEdges [(0, 1, 2), (2, 1, 3)] = [(0, 1), (0, 2), (1, 2), (1, 3), (2, 3)] := by decide
+
+/-! ## 6. uniform scaling of whole meshes: normals do not see the scale, areas × s², lengths × s
+
+The statements are about the whole-mesh queries (`tri_areas`, `edge_lengths`, `tri_normals`,
+`vertex_normals`) of the mesh whose vertex array is `points.map (p ↦ s p + t)`; `s` is any non-zero
+rational (`2^-30 … 2^20` in the correspondence), no smallness or largeness assumption anywhere: the
+code's `_normalize` must divide by the norm itself, however small it is. -/
+
+/-- PROPERTY ("areas scale by s-squared"), whole mesh, 2-D (exact) and 3-D (on the square) -/
+theorem mesh_areas2_scale (s : Rat) (t : V2) (pts : List V2) (ts : List Tri) :
+    meshAreas2 (pts.map (aff2 (M2.scalar s) t)) ts = (meshAreas2 pts ts).map (fun a => s ^ 2 * a) := by
+  simp only [meshAreas2, triCorners_map, List.map_map]
+  apply List.map_congr_left
+  intro q _
+  simp only [Function.comp, area2_scales]
+
+theorem mesh_areasSq3_scale (s : Rat) (t : V3) (pts : List V3) (ts : List Tri) :
+    meshAreasSq3 (pts.map (aff3 (M3.scalar s) t)) ts = (meshAreasSq3 pts ts).map (fun a => s ^ 4 * a) := by
+  simp only [meshAreasSq3, triCorners_map, List.map_map]
+  apply List.map_congr_left
+  intro q _
+  simp only [Function.comp, areaSq3_scales]
+
+/-- PROPERTY ("edge lengths scale by s"), whole mesh, on the squares -/
+theorem mesh_edgeSq2_scale (s : Rat) (t : V2) (pts : List V2) (ts : List Tri) :
+    meshEdgeSq2 (pts.map (aff2 (M2.scalar s) t)) ts = (meshEdgeSq2 pts ts).map (fun q => s ^ 2 * q) := by
+  simp only [meshEdgeSq2, triCorners_map, List.flatMap_map, List.map_flatMap]
+  apply List.flatMap_congr
+  intro q _
+  simp only [edgeSq2_scales]
+
+theorem mesh_edgeSq3_scale (s : Rat) (t : V3) (pts : List V3) (ts : List Tri) :
+    meshEdgeSq3 (pts.map (aff3 (M3.scalar s) t)) ts = (meshEdgeSq3 pts ts).map (fun q => s ^ 2 * q) := by
+  simp only [meshEdgeSq3, triCorners_map, List.flatMap_map, List.map_flatMap]
+  apply List.flatMap_congr
+  intro q _
+  simp only [edgeSq3_scales]
+
+/-- whole mesh, rigid motions: areas and edge lengths do not change -/
+theorem mesh_areasSq3_rigid (A : M3) (hA : A.IsOrtho) (t : V3) (pts : List V3) (ts : List Tri) :
+    meshAreasSq3 (pts.map (aff3 A t)) ts = meshAreasSq3 pts ts ∧
+    meshEdgeSq3 (pts.map (aff3 A t)) ts = meshEdgeSq3 pts ts := by
+  constructor
+  · simp only [meshAreasSq3, triCorners_map, List.map_map]
+    apply List.map_congr_left
+    intro q _
+    simp only [Function.comp, areaSq3_rigid_invariant A hA]
+  · simp only [meshEdgeSq3, triCorners_map, List.flatMap_map]
+    apply List.flatMap_congr
+    intro q _
+    simp only [edgeSq3_rigid_invariant A hA]
+
+theorem mesh_areas2_rigid (A : M2) (hA : A.IsOrtho) (t : V2) (pts : List V2) (ts : List Tri) :
+    meshAreas2 (pts.map (aff2 A t)) ts = meshAreas2 pts ts ∧
+    meshEdgeSq2 (pts.map (aff2 A t)) ts = meshEdgeSq2 pts ts := by
+  constructor
+  · simp only [meshAreas2, triCorners_map, List.map_map]
+    apply List.map_congr_left
+    intro q _
+    simp only [Function.comp, area2_rigid_invariant A hA]
+  · simp only [meshEdgeSq2, triCorners_map, List.flatMap_map]
+    apply List.flatMap_congr
+    intro q _
+    simp only [edgeSq2_rigid_invariant A hA]
+
+/-- PROPERTY ("triangle normals are unit vectors", every scale): `compute_face_normals` returns a
+unit vector for every triangle of non-zero area, under nothing but the `sqrt` contract. -/
+theorem face_normals_unit (rs : List Rat) (pts : List V3) (ts : List Tri)
+    (hr : RootsOf rs (meshFaceNormalsRaw pts ts)) (j : Nat) (raw : V3)
+    (hj : (meshFaceNormalsRaw pts ts)[j]? = some raw) (hnd : raw ≠ V3.zero) :
+    ∃ n, (faceNormals rs pts ts)[j]? = some n ∧ V3.normSq n = 1 := by
+  have hlen := hr.length_eq
+  have hjl : j < (meshFaceNormalsRaw pts ts).length := by
+    by_contra h; rw [List.getElem?_eq_none (by omega)] at hj; cases hj
+  have hjr : j < rs.length := by omega
+  refine ⟨normalize1 rs[j] raw, ?_, ?_⟩
+  · simp only [faceNormals, normalizeRows, List.getElem?_zipWith, List.getElem?_eq_getElem hjr, hj]
+  · exact normalize1_unit _ _ (hr.get j _ _ (List.getElem?_eq_getElem hjr) hj) hnd
+
+/-- PROPERTY (normals under uniform scaling, `s ≠ 0`): the un-normalised face normals are multiplied
+by `s²`, the roots `_normalize` takes are therefore `s² rs` (and no others — `RootsOf.unique`), and
+the unit face normals of the scaled mesh ARE the unit face normals of the mesh: no dependence on the
+size of the mesh is left. -/
+theorem face_normals_scale_invariant (s : Rat) (hs : s ≠ 0) (t : V3) (rs : List Rat) (pts : List V3)
+    (ts : List Tri) (hr : RootsOf rs (meshFaceNormalsRaw pts ts)) :
+    RootsOf (rs.map (fun r => s ^ 2 * r)) (meshFaceNormalsRaw (pts.map (aff3 (M3.scalar s) t)) ts) ∧
+    faceNormals (rs.map (fun r => s ^ 2 * r)) (pts.map (aff3 (M3.scalar s) t)) ts = faceNormals rs pts ts := by
+  rw [faceNormals, meshFaceNormalsRaw_scale]
+  exact ⟨hr.map_scale (s ^ 2) (sq_nonneg s), normalizeRows_scale (s ^ 2) (pow_ne_zero 2 hs) rs _⟩
+
+/-- … and so are the vertex normals. -/
+theorem vertex_normals_scale_invariant (s : Rat) (hs : s ≠ 0) (t : V3) (rs rs' : List Rat) (pts : List V3)
+    (ts : List Tri) (hr : RootsOf rs (meshFaceNormalsRaw pts ts)) :
+    vertexNormals (rs.map (fun r => s ^ 2 * r)) rs' (pts.map (aff3 (M3.scalar s) t)) ts
+      = vertexNormals rs rs' pts ts := by
+  simp only [vertexNormals, (face_normals_scale_invariant s hs t rs pts ts hr).2, List.length_map]
+
+/-- a triangle of non-zero area keeps a non-zero area under scaling (the hypothesis of
+`face_normals_unit` is stable): `‖n'‖² = s⁴ ‖n‖²`. -/
+theorem nondegenerate_scale (s : Rat) (hs : s ≠ 0) (t a b c : V3) (h : faceNormalRaw a b c ≠ V3.zero) :
+    faceNormalRaw (aff3 (M3.scalar s) t a) (aff3 (M3.scalar s) t b) (aff3 (M3.scalar s) t c) ≠ V3.zero := by
+  simp only [faceNormalRaw, V3.sub_aff, V3.cross_scalar]
+  intro h0
+  apply h
+  have := congrArg (V3.smul (1 / s ^ 2)) h0
+  rw [V3.smul_smul', V3.smul_zero'] at this
+  have hs2 : (1 / s ^ 2) * s ^ 2 = 1 := by field_simp
+  rw [hs2, V3.one_smul'] at this
+  exact this
+
+/-! non-vacuity: a tetrahedron-like patch at scale 2^-30, roots rational -/
+def exPts3 : List V3 := [⟨0, 0, 0⟩, ⟨1, 2, 2⟩, ⟨2, 1, -2⟩, ⟨0, 0, 3⟩]
+def exTs3 : List Tri := [(0, 1, 2), (0, 3, 1)]
+example : meshFaceNormalsRaw exPts3 exTs3 = [⟨-6, 6, -3⟩, ⟨-6, 3, 0⟩] := by decide +kernel
+example : RootsOf [9] (meshFaceNormalsRaw exPts3 [(0, 1, 2)]) := by
+  have h : meshFaceNormalsRaw exPts3 [(0, 1, 2)] = [⟨-6, 6, -3⟩] := by decide +kernel
+  rw [h]; exact ⟨⟨by decide +kernel, by decide +kernel⟩, trivial⟩
+example : faceNormals [9] exPts3 [(0, 1, 2)] = [⟨-2/3, 2/3, -1/3⟩] ∧
+    faceNormals [(1 / 2 ^ 30) ^ 2 * 9] (exPts3.map (aff3 (M3.scalar (1 / 2 ^ 30)) ⟨0, 0, 0⟩)) [(0, 1, 2)]
+      = [⟨-2/3, 2/3, -1/3⟩] := by decide +kernel
+
+/-! ## 7. vertex normals: the scatter-add, exactly -/
+
+/-- PROPERTY (mechanism "scatter-add vertex normals"): the three `np.add.at` passes of
+`compute_vertex_normals` leave, at every vertex, the sum of the normals of the triangles incident to
+it (a triangle counts once per corner it has at the vertex) — as whole arrays, the coded loop IS the
+specification. -/
+theorem vertex_sums_coded_eq_spec (n : Nat) (ts : List Tri) (fn : List V3) :
+    vertexNormalSumsCoded n ts fn = vertexNormalSums n ts fn ∧
+    (vertexNormalSumsCoded n ts fn).length = n ∧
+    ∀ v, v < n → (vertexNormalSumsCoded n ts fn)[v]? = some (incidentSum ts fn v) :=
+  ⟨vertexNormalSumsCoded_eq n ts fn, vertexNormalSumsCoded_length n ts fn,
+    fun v hv => vertexNormalSumsCoded_get n ts fn v hv⟩
+
+/-- for triangles with three distinct corners the incident sum is the plain sum over the triangles
+that contain the vertex -/
+theorem incident_sum_distinct (ts : List Tri) (fn : List V3) (v : Nat)
+    (hd : ∀ t ∈ ts, t.verts.Nodup) :
+    incidentSum ts fn v = vsum (((ts.zip fn).filter (fun p => p.1.verts.contains v)).map (fun p => p.2)) := by
+  rw [vsum_filter_ite, incidentSum]
+  congr 1
+  apply List.map_congr_left
+  intro p hp
+  have hnd := hd p.1 (List.of_mem_zip hp).1
+  by_cases hv : v ∈ p.1.verts
+  · have : p.1.verts.count v = 1 := by rw [hnd.count, if_pos hv]
+    simp [this, hv, V3.one_smul']
+  · have : p.1.verts.count v = 0 := by rw [hnd.count, if_neg hv]
+    simp [this, hv, V3.zero_smul']
+
+/-- PROPERTY: a vertex normal is the NORMALISED sum of the (unit) normals of its incident triangles,
+and it is a unit vector whenever that sum is not zero. -/
+theorem vertex_normal_is_normalised_incident_sum (rs rs' : List Rat) (pts : List V3) (ts : List Tri)
+    (hr' : RootsOf rs' (vertexNormalSumsCoded pts.length ts (faceNormals rs pts ts)))
+    (v : Nat) (hv : v < pts.length) :
+    ∃ r, rs'[v]? = some r ∧ IsRoot r (V3.normSq (incidentSum ts (faceNormals rs pts ts) v)) ∧
+      (vertexNormals rs rs' pts ts)[v]? = some (normalize1 r (incidentSum ts (faceNormals rs pts ts) v)) ∧
+      (incidentSum ts (faceNormals rs pts ts) v ≠ V3.zero →
+        V3.normSq (normalize1 r (incidentSum ts (faceNormals rs pts ts) v)) = 1) := by
+  have hlen := hr'.length_eq
+  rw [vertexNormalSumsCoded_length] at hlen
+  have hvr : v < rs'.length := by omega
+  have hget := vertexNormalSumsCoded_get pts.length ts (faceNormals rs pts ts) v hv
+  have hroot := hr'.get v _ _ (List.getElem?_eq_getElem hvr) hget
+  refine ⟨rs'[v], List.getElem?_eq_getElem hvr, hroot, ?_, fun h0 => normalize1_unit _ _ hroot h0⟩
+  simp only [vertexNormals, normalizeRows, List.getElem?_zipWith, List.getElem?_eq_getElem hvr, hget]
+
+/-- PROPERTY (independence of the triangle order): permuting the rows of the triangle list (each
+row keeping its face normal) does not change any accumulated vertex normal. -/
+theorem vertex_sums_order_independent (n : Nat) (ts ts' : List Tri) (g : Tri → V3) (h : ts.Perm ts') :
+    vertexNormalSumsCoded n ts (ts.map g) = vertexNormalSumsCoded n ts' (ts'.map g) := by
+  have hz : ∀ l : List Tri, l.zip (l.map g) = l.map (fun t => (t, g t)) := by
+    intro l; induction l with
+    | nil => rfl
+    | cons t l ih => simp [ih]
+  apply List.ext_getElem?
+  intro v
+  by_cases hv : v < n
+  · rw [vertexNormalSumsCoded_get _ _ _ v hv, vertexNormalSumsCoded_get _ _ _ v hv]
+    congr 1
+    apply incidentSum_perm
+    rw [hz, hz]
+    exact h.map _
+  · rw [List.getElem?_eq_none (by rw [vertexNormalSumsCoded_length]; omega),
+      List.getElem?_eq_none (by rw [vertexNormalSumsCoded_length]; omega)]
+
+/-- PROPERTY ("follow rotations", vertex normals): for a rotation `A` (`AᵀA = 1`, `det A = 1`) and
+any translation, the roots `_normalize` takes are the same for the moved mesh, the face normals are
+rotated, and every vertex normal of the moved mesh is the rotated vertex normal. -/
+theorem vertex_normals_follow_rotation (A : M3) (hA : A.IsOrtho) (hdet : A.det = 1) (t : V3)
+    (rs rs' : List Rat) (pts : List V3) (ts : List Tri)
+    (hr : RootsOf rs (meshFaceNormalsRaw pts ts))
+    (hr' : RootsOf rs' (vertexNormalSumsCoded pts.length ts (faceNormals rs pts ts))) :
+    RootsOf rs (meshFaceNormalsRaw (pts.map (aff3 A t)) ts) ∧
+    faceNormals rs (pts.map (aff3 A t)) ts = (faceNormals rs pts ts).map A.mulVec ∧
+    RootsOf rs' (vertexNormalSumsCoded (pts.map (aff3 A t)).length ts (faceNormals rs (pts.map (aff3 A t)) ts)) ∧
+    vertexNormals rs rs' (pts.map (aff3 A t)) ts = (vertexNormals rs rs' pts ts).map A.mulVec := by
+  have hraw : meshFaceNormalsRaw (pts.map (aff3 A t)) ts = (meshFaceNormalsRaw pts ts).map A.mulVec := by
+    rw [meshFaceNormalsRaw_rigid A hA]
+    apply List.map_congr_left
+    intro n _
+    rw [hdet, V3.one_smul']
+  have hfn : faceNormals rs (pts.map (aff3 A t)) ts = (faceNormals rs pts ts).map A.mulVec := by
+    rw [faceNormals, hraw, normalizeRows_map_mulVec]; rfl
+  refine ⟨by rw [hraw]; exact hr.map_ortho A hA, hfn, ?_, ?_⟩
+  · rw [hfn, List.length_map, vertexNormalSumsCoded_mulVec]; exact hr'.map_ortho A hA
+  · rw [vertexNormals, hfn, List.length_map, vertexNormalSumsCoded_mulVec, normalizeRows_map_mulVec]; rfl
+
+/-- PROPERTY (flat meshes): if all triangles lie in planes orthogonal to the unit vector `N` and are
+oriented consistently with it, every triangle normal is `N` and every vertex that belongs to a
+triangle gets the vertex normal `N`. -/
+theorem flat_mesh_normals (N : V3) (hN : V3.normSq N = 1) (rs rs' : List Rat) (pts : List V3) (ts : List Tri)
+    (hwf : WF pts.length ts)
+    (hflat : ∀ q ∈ triCorners pts ts, V3.dot N (V3.sub q.2.1 q.1) = 0 ∧ V3.dot N (V3.sub q.2.2 q.1) = 0 ∧
+      0 < V3.dot (faceNormalRaw q.1 q.2.1 q.2.2) N)
+    (hr : RootsOf rs (meshFaceNormalsRaw pts ts))
+    (hr' : RootsOf rs' (vertexNormalSumsCoded pts.length ts (faceNormals rs pts ts))) :
+    faceNormals rs pts ts = List.replicate ts.length N ∧
+    ∀ v, v < pts.length → 0 < valence ts v → (vertexNormals rs rs' pts ts)[v]? = some N := by
+  have hfn : faceNormals rs pts ts = List.replicate ts.length N := by
+    apply List.ext_getElem?
+    intro j
+    have hlen := hr.length_eq
+    have hcl := triCorners_length pts ts hwf
+    have hrawlen : (meshFaceNormalsRaw pts ts).length = ts.length := by simp [meshFaceNormalsRaw, hcl]
+    by_cases hj : j < ts.length
+    · have hjc : j < (triCorners pts ts).length := by omega
+      have hjr : j < rs.length := by omega
+      have hq := hflat _ (List.getElem_mem hjc)
+      generalize hqdef : (triCorners pts ts)[j] = q at hq
+      have hrawj : (meshFaceNormalsRaw pts ts)[j]? = some (faceNormalRaw q.1 q.2.1 q.2.2) := by
+        simp [meshFaceNormalsRaw, List.getElem?_map, List.getElem?_eq_getElem hjc, hqdef]
+      have hpar : faceNormalRaw q.1 q.2.1 q.2.2
+          = V3.smul (V3.dot (faceNormalRaw q.1 q.2.1 q.2.2) N) N := V3.cross_parallel N _ _ hN hq.1 hq.2.1
+      have hroot := hr.get j _ _ (List.getElem?_eq_getElem hjr) hrawj
+      have hpos := hq.2.2
+      generalize faceNormalRaw q.1 q.2.1 q.2.2 = w at hrawj hpar hroot hpos
+      generalize hd : V3.dot w N = d at hpar hpos
+      have hroot' : IsRoot d (V3.normSq w) := by
+        refine ⟨le_of_lt hpos, ?_⟩
+        rw [hpar, V3.normSq_smul, hN]; ring
+      have hrd : rs[j] = d := hroot.unique hroot'
+      have hd0 : d ≠ 0 := ne_of_gt hpos
+      simp only [faceNormals, normalizeRows, List.getElem?_zipWith, List.getElem?_eq_getElem hjr, hrawj,
+        List.getElem?_replicate, hj, if_true]
+      simp only [Option.some.injEq]
+      rw [hrd, normalize1, if_neg hd0]
+      conv_lhs => rw [hpar]
+      rw [V3.smul_smul']
+      have : 1 / d * d = 1 := by field_simp
+      rw [this, V3.one_smul']
+    · rw [List.getElem?_eq_none (by simp [faceNormals, normalizeRows, hrawlen]; omega),
+        List.getElem?_eq_none (by simp; omega)]
+  refine ⟨hfn, ?_⟩
+  intro v hv hval
+  obtain ⟨r, hrv, hroot, hget, _⟩ := vertex_normal_is_normalised_incident_sum rs rs' pts ts hr' v hv
+  rw [hget, hfn, incidentSum_const]
+  rw [hfn, incidentSum_const] at hroot
+  have hk : ((valence ts v : Nat) : Rat) ≠ 0 := by exact_mod_cast (Nat.pos_iff_ne_zero.1 hval)
+  have hroot' : IsRoot ((valence ts v : Nat) : Rat) (V3.normSq (V3.smul ((valence ts v : Nat) : Rat) N)) :=
+    ⟨by exact_mod_cast Nat.zero_le _, by rw [V3.normSq_smul, hN]; ring⟩
+  rw [hroot.unique hroot', normalize1, if_neg hk, V3.smul_smul']
+  have : 1 / ((valence ts v : Nat) : Rat) * ((valence ts v : Nat) : Rat) = 1 := by field_simp
+  rw [this, V3.one_smul']
+
+/-! non-vacuity: a flat 2×2 grid in the plane x + 2y + 2z = const (unit normal (1/3, 2/3, 2/3)) -/
+def flatN : V3 := ⟨1/3, 2/3, 2/3⟩
+def flatPts : List V3 := [⟨0, 0, 0⟩, ⟨2, -1, 0⟩, ⟨2, 0, -1⟩, ⟨4, -1, -1⟩]
+def flatTs : List Tri := [(0, 1, 2), (1, 3, 2)]
+example : V3.normSq flatN = 1 ∧ WF flatPts.length flatTs ∧
+    meshFaceNormalsRaw flatPts flatTs = [⟨1, 2, 2⟩, ⟨1, 2, 2⟩] ∧
+    (∀ q ∈ triCorners flatPts flatTs, V3.dot flatN (V3.sub q.2.1 q.1) = 0 ∧ V3.dot flatN (V3.sub q.2.2 q.1) = 0 ∧
+      0 < V3.dot (faceNormalRaw q.1 q.2.1 q.2.2) flatN) := by decide +kernel
+example : vertexNormals [3, 3] [1, 2, 2, 1] flatPts flatTs = [flatN, flatN, flatN, flatN] := by decide +kernel
+example : vertexNormalSumsCoded 4 [(0, 1, 2), (0, 2, 3)] [⟨0, 0, 1⟩, ⟨0, 3/5, 4/5⟩]
+    = [⟨0, 3/5, 9/5⟩, ⟨0, 0, 1⟩, ⟨0, 3/5, 9/5⟩, ⟨0, 3/5, 4/5⟩] := by decide +kernel
+example : [(0, 1, 2), (0, 2, 3)].Perm [(0, 2, 3), ((0, 1, 2) : Tri)] := List.Perm.swap _ _ _
+
+/-! ## 8. edges with multiplicity: `edge_lengths` against `unique_edge_lengths`, means, closed meshes -/
+
+/-- the length of a side does not depend on its direction: it is a function of the undirected edge -/
+theorem edge_length_symmetric (a b : V3) (a' b' : V2) :
+    V3.normSq (V3.sub a b) = V3.normSq (V3.sub b a) ∧ V2.normSq (V2.sub a' b') = V2.normSq (V2.sub b' a') := by
+  constructor
+  · simp only [V3.normSq, V3.dot, V3.sub]; ring
+  · simp only [V2.normSq, V2.dot, V2.sub]; ring
+
+theorem cast_sum_nat (l : List Nat) : ((l.sum : Nat) : Rat) = (l.map (fun (n : Nat) => (n : Rat))).sum := by
+  induction l with
+  | nil => simp
+  | cons x xs ih => simp [ih]
+
+/-- PROPERTY ("unique edges list each undirected edge once", quantitative form, ALL meshes): the
+`3·n_tris` (triangle, side) slots of `edge_indices` are the unique edges counted with their
+multiplicity; any per-edge quantity `f` (a length, a squared length) summed over `edge_lengths`-order
+slots equals the multiplicity-weighted sum over `unique_edge_indices`. -/
+theorem edge_sum_by_multiplicity (ts : List Tri) (f : Edge → Rat) :
+    ((sortedEdges ts).map f).sum = ((uniqueEdges ts).map (fun e => (mult ts e : Rat) * f e)).sum ∧
+    (sortedEdges ts).length = 3 * ts.length ∧
+    ((uniqueEdges ts).map (mult ts)).sum = 3 * ts.length := by
+  refine ⟨slots_sum_eq ts f, sortedEdges_length ts, ?_⟩
+  have h := slots_sum_eq ts (fun _ => 1)
+  have hl : ((sortedEdges ts).map (fun _ => (1 : Rat))).sum = ((sortedEdges ts).length : Rat) := by
+    generalize sortedEdges ts = l
+    induction l with
+    | nil => simp
+    | cons x xs ih => simp only [List.map_cons, List.sum_cons, ih, List.length_cons]; push_cast; ring
+  rw [hl, sortedEdges_length] at h
+  have : (((uniqueEdges ts).map (mult ts)).sum : Rat) = ((3 * ts.length : Nat) : Rat) := by
+    rw [cast_sum_nat, List.map_map, h]
+    congr 1
+    apply List.map_congr_left
+    intro e _; simp
+  exact_mod_cast this
+
+/-- PROPERTY (`mean_edge_length(unique=True)` vs `unique=False`): on a mesh all of whose edges have
+the same multiplicity `m` (closed manifold meshes: `m = 2`; a single triangle: `m = 1`) the two
+means coincide, for whatever per-edge length `f`. -/
+theorem mean_edge_uniform_multiplicity (ts : List Tri) (f : Edge → Rat) (m : Nat) (hm : 0 < m)
+    (h : ∀ e ∈ uniqueEdges ts, mult ts e = m) :
+    meanQ ((sortedEdges ts).map f) = meanQ ((uniqueEdges ts).map f) := by
+  obtain ⟨h1, h2, h3⟩ := edge_sum_by_multiplicity ts f
+  have hs : ((uniqueEdges ts).map (fun e => (mult ts e : Rat) * f e)).sum
+      = (m : Rat) * ((uniqueEdges ts).map f).sum := by
+    rw [← sum_map_const_mul]
+    congr 1
+    apply List.map_congr_left
+    intro e he; rw [h e he]
+  have hc : ((uniqueEdges ts).map (mult ts)).sum = m * (uniqueEdges ts).length := by
+    have : (uniqueEdges ts).map (mult ts) = (uniqueEdges ts).map (fun _ => m) :=
+      List.map_congr_left (fun e he => h e he)
+    rw [this]
+    generalize uniqueEdges ts = l
+    induction l with
+    | nil => simp
+    | cons x xs ih => simp only [List.map_cons, List.sum_cons, ih, List.length_cons]; ring
+  have hm' : (m : Rat) ≠ 0 := by exact_mod_cast (Nat.pos_iff_ne_zero.1 hm)
+  rw [meanQ_eq, meanQ_eq, List.length_map, List.length_map, h1, hs, h2, ← h3, hc]
+  push_cast
+  rw [mul_div_mul_left _ _ hm']
+
+/-- PROPERTY (means under scaling): `np.mean` is linear, so `mean_edge_length` scales by `s` and
+`mean_tri_area` by `s²` with the lengths / areas. -/
+theorem mean_scales (s : Rat) (l : List Rat) : meanQ (l.map (fun x => s * x)) = s * meanQ l := by
+  rw [meanQ_eq, meanQ_eq, List.length_map, sum_map_mul_left]; ring
+
+/-- PROPERTY (boundary detection on closed meshes, ALL meshes): no triangle is flagged exactly when
+no side of any triangle is an unshared edge; in particular a closed manifold mesh (every edge shared
+by exactly two triangles) has the all-false index — by the specification and by the repaired code. -/
+theorem boundary_none_iff (ts : List Tri) :
+    boundarySpec ts = List.replicate ts.length false ↔ ∀ t ∈ ts, ∀ e ∈ t.edges, mult ts e ≠ 1 := by
+  constructor
+  · intro h t ht e he h1
+    obtain ⟨k, hk, hkt⟩ := List.getElem_of_mem ht
+    have h2 := (boundary_flags_exactly ts k).2.2 ⟨t, by rw [List.getElem?_eq_getElem hk, hkt], e, he, h1⟩
+    rw [h] at h2
+    simp [List.getElem?_replicate] at h2
+  · intro h
+    apply List.ext_getElem?
+    intro k
+    by_cases hk : k < ts.length
+    · have hf : (boundarySpec ts)[k]? = some false := by
+        simp only [boundarySpec, List.getElem?_map, List.getElem?_eq_getElem hk, Option.map_some,
+          Option.some.injEq, List.any_eq_false, beq_iff_eq]
+        intro e he; exact h _ (List.getElem_mem hk) e he
+      rw [hf]; simp [hk]
+    · rw [List.getElem?_eq_none (by simp [boundarySpec]; omega), List.getElem?_eq_none (by simp; omega)]
+
+theorem boundary_closed_all_false (n : Nat) (ts : List Tri) (hwf : WF n ts)
+    (h2 : ∀ t ∈ ts, ∀ e ∈ t.edges, mult ts e = 2) :
+    boundarySpec ts = List.replicate ts.length false ∧ boundaryCount n ts = List.replicate ts.length false := by
+  have := (boundary_none_iff ts).2 (fun t ht e he => by rw [h2 t ht e he]; decide)
+  exact ⟨this, by rw [boundaryCount_eq_spec n ts hwf, this]⟩
+
+/-! non-vacuity: the closed tetrahedron (all multiplicities 2), the octahedron count -/
+example : (∀ t ∈ tetra, ∀ e ∈ t.edges, mult tetra e = 2) ∧ WF 4 tetra ∧
+    (∀ e ∈ uniqueEdges tetra, mult tetra e = 2) ∧ (uniqueEdges tetra).length = 6 ∧
+    (sortedEdges tetra).length = 12 := by decide
+example : meanQ [3, 4, 5, 3, 4, 5] = meanQ [3, 4, 5] ∧ meanQ ([3, 4, 5].map (fun x => 2 * x)) = 8 := by
+  decide +kernel
+
+/-! ### the arrays `edge_lengths()` / `unique_edge_lengths()` return, slot by slot -/
+
+theorem edgeSqAt3_swap (pts : List V3) (a b : Nat) : edgeSqAt3 pts (a, b) = edgeSqAt3 pts (b, a) := by
+  simp only [edgeSqAt3]
+  cases pts[a]? <;> cases pts[b]? <;> simp [(edge_length_symmetric _ _ ⟨0, 0⟩ ⟨0, 0⟩).1]
+
+theorem edgeSqAt3_sort (pts : List V3) (e : Edge) : edgeSqAt3 pts (sortEdge e) = edgeSqAt3 pts e := by
+  unfold sortEdge; split
+  · rfl
+  · exact edgeSqAt3_swap pts e.2 e.1
+
+theorem getTri_eq {α} (pts : List α) (t : Tri) (q : α × α × α) (h : getTri pts t = some q) :
+    pts[t.1]? = some q.1 ∧ pts[t.2.1]? = some q.2.1 ∧ pts[t.2.2]? = some q.2.2 := by
+  unfold getTri at h
+  cases h1 : pts[t.1]? <;> cases h2 : pts[t.2.1]? <;> cases h3 : pts[t.2.2]? <;> simp_all
+  obtain ⟨rfl⟩ := h; exact ⟨rfl, rfl, rfl⟩
+
+/-- `edge_lengths()²` slot by slot: the squared length of the (undirected) edge of that slot -/
+theorem meshEdgeSq3_eq_slots (pts : List V3) (ts : List Tri) (hwf : WF pts.length ts) :
+    meshEdgeSq3 pts ts = (sortedEdges ts).map (edgeSqAt3 pts) := by
+  induction ts with
+  | nil => rfl
+  | cons t ts ih =>
+    obtain ⟨q, hq⟩ := getTri_some_of_wf pts t (hwf t List.mem_cons_self)
+    have ih' := ih (fun t' ht' => hwf t' (List.mem_cons_of_mem _ ht'))
+    obtain ⟨h1, h2, h3⟩ := getTri_eq pts t q hq
+    simp only [meshEdgeSq3, triCorners, List.filterMap_cons, hq, List.flatMap_cons] at ih' ⊢
+    simp only [sortedEdges, edgeIndices, List.flatMap_cons, List.map_append] at ih' ⊢
+    rw [ih']
+    congr 1
+    simp only [Tri.edges, List.map_cons, List.map_nil, edgeSqAt3_sort, edgeSq3, edgeVecs3]
+    simp only [edgeSqAt3, h1, h2, h3]
+    simp [(edge_length_symmetric q.1 q.2.2 ⟨0, 0⟩ ⟨0, 0⟩).1]
+
+theorem uniqueEdgeSq3_eq (pts : List V3) (ts : List Tri) (hwf : WF pts.length ts) :
+    uniqueEdgeSq3 pts ts = (uniqueEdges ts).map (edgeSqAt3 pts) := by
+  unfold uniqueEdgeSq3
+  rw [← List.filterMap_eq_map]
+  apply List.filterMap_congr
+  intro e he
+  have hmem : e ∈ sortedEdges ts := (mem_dedup _ _).1 he
+  obtain ⟨h1, h2⟩ := sortedEdges_lt pts.length ts hwf e hmem
+  simp [edgeSqAt3, List.getElem?_eq_getElem h1, List.getElem?_eq_getElem h2]
+
+/-- PROPERTY (`edge_lengths` against `unique_edge_lengths`, ALL well-formed meshes): the squared
+lengths `edge_lengths()` returns, summed over the `3·n_tris` slots, are the squared lengths
+`unique_edge_lengths()` returns weighted by the multiplicity of their edge; with the same
+multiplicity everywhere their means coincide. -/
+theorem mesh_edge_lengths_by_multiplicity (pts : List V3) (ts : List Tri) (hwf : WF pts.length ts) :
+    (meshEdgeSq3 pts ts).length = 3 * ts.length ∧
+    (uniqueEdgeSq3 pts ts).length = (uniqueEdges ts).length ∧
+    (meshEdgeSq3 pts ts).sum = ((uniqueEdges ts).map (fun e => (mult ts e : Rat) * edgeSqAt3 pts e)).sum ∧
+    (∀ m : Nat, 0 < m → (∀ e ∈ uniqueEdges ts, mult ts e = m) →
+      meanQ (meshEdgeSq3 pts ts) = meanQ (uniqueEdgeSq3 pts ts)) := by
+  rw [meshEdgeSq3_eq_slots pts ts hwf, uniqueEdgeSq3_eq pts ts hwf]
+  refine ⟨by rw [List.length_map, sortedEdges_length], by rw [List.length_map],
+    (edge_sum_by_multiplicity ts (edgeSqAt3 pts)).1, ?_⟩
+  intro m hm h
+  exact mean_edge_uniform_multiplicity ts (edgeSqAt3 pts) m hm h
+
+example : meshEdgeSq3 exPts3 exTs3 = [9, 18, 9, 9, 6, 9] := by decide +kernel
+example : uniqueEdgeSq3 exPts3 exTs3 = [18, 9, 9, 6, 9] := by decide +kernel
+example : WF exPts3.length exTs3 := by decide
+
+
+/-! ## 9. masking and edges: the edge structure of the masked mesh is that of the kept triangles -/
+
+/-- PROPERTY (edge-derived queries after masking: `edge_indices`, `unique_edge_indices`,
+`as_pointgraph().edges`, `boundary_tri_index`): the renumbering `ρ` of `from_mask` is monotone and
+identifies no two vertices of the kept triangles, so the edge slots of the result are the renumbered
+edge slots of the kept triangles, the sorted (undirected) edges likewise, every edge keeps its
+multiplicity, and the boundary flags of the masked mesh are those of the kept triangles on their
+own (an edge shared with a removed triangle becomes a boundary edge). -/
+theorem mask_edges_renumbered (M : Mesh P C T) (m : List Bool)
+    (hlen : m.length = M.pts.length) (hall : m.all id = false)
+    (hwf : WF M.pts.length M.tris) (hne : M.tris.filter (wholeTri m) ≠ []) :
+    ∃ R ρ, fromMask M m = .ok R ∧ (∀ a b, a ≤ b → ρ a ≤ ρ b) ∧
+      InjOnVerts ρ (M.tris.filter (wholeTri m)) ∧
+      edgeIndices R.tris = (edgeIndices (M.tris.filter (wholeTri m))).map (fun e => (ρ e.1, ρ e.2)) ∧
+      sortedEdges R.tris = (sortedEdges (M.tris.filter (wholeTri m))).map (fun e => (ρ e.1, ρ e.2)) ∧
+      (∀ e, e ∈ graphEdges R.tris ↔ ∃ e' ∈ graphEdges (M.tris.filter (wholeTri m)), e = (ρ e'.1, ρ e'.2)) ∧
+      boundarySpec R.tris = boundarySpec (M.tris.filter (wholeTri m)) := by
+  have hwf' : WF m.length M.tris := by rw [hlen]; exact hwf
+  have hne' : maskAdj m M.tris ≠ [] := by rw [maskAdj_eq_filter_whole m M.tris hwf']; exact hne
+  have hmono : ∀ a b, a ≤ b → rank (isolatedMask m M.tris) a ≤ rank (isolatedMask m M.tris) b :=
+    rank_mono _
+  have hinj : InjOnVerts (rank (isolatedMask m M.tris)) (M.tris.filter (wholeTri m)) := by
+    intro t ht t' ht' v hv w hw h
+    exact rank_inj _ v w (mem_filter_whole_iso m M.tris hwf' t ht v hv)
+      (mem_filter_whole_iso m M.tris hwf' t' ht' w hw) h
+  refine ⟨_, rank (isolatedMask m M.tris), fromMask_normal M m hlen hall hwf hne', hmono, hinj,
+    edgeIndices_map _ _, sortedEdges_map_mono _ hmono _, ?_, boundarySpec_map _ hmono _ hinj⟩
+  intro e
+  simp only [graphEdges, uniqueEdges, mem_dedup, sortedEdges_map_mono _ hmono, List.mem_map]
+  constructor
+  · rintro ⟨e', he', rfl⟩; exact ⟨e', he', rfl⟩
+  · rintro ⟨e', he', rfl⟩; exact ⟨e', he', rfl⟩
+
+example : (fromMask exMesh exMask2).toOption.map (fun R => boundarySpec R.tris) = some [true, true] ∧
+    boundarySpec (exMesh.tris.filter (wholeTri exMask2)) = [true, true] ∧
+    boundarySpec exMesh.tris = [true, true, true] := by decide
+
+/-! ## 10. queries are pure: no public query writes instance state
+
+`GenProps/C17.lean` proves, on every run, that the table of instance attributes written by each
+public query — measured on live TriMesh / ColouredTriMesh / TexturedTriMesh objects — is empty
+(`queryWrites_ok`).  That is the frame condition `hframe` below for the real classes; a memo kept on
+the instance by any query breaks the obligation before any answer changes. -/
+
+/-- PROPERTY (history independence): if no query changes the state, every answer in any sequence of
+queries is the answer a fresh object gives, and the state handed to a later `from_mask` is the
+original one — masking after any history of queries equals masking the fresh mesh. -/
+theorem queries_pure {S Q R} (mc : Machine S Q R) (hframe : ∀ s q, (mc.step s q).1 = s)
+    (s : S) (qs : List Q) :
+    (mc.run s qs).1 = s ∧ (mc.run s qs).2 = qs.map (fun q => (mc.step s q).2) := by
+  induction qs generalizing s with
+  | nil => exact ⟨rfl, rfl⟩
+  | cons q qs ih =>
+    have h1 := hframe s q
+    obtain ⟨ih1, ih2⟩ := ih s
+    simp only [Machine.run, List.map_cons]
+    rw [show mc.step s q = ((mc.step s q).1, (mc.step s q).2) from rfl]
+    simp only [h1, ih1, ih2]
+    exact ⟨trivial, trivial⟩
+
+theorem mask_after_queries {S Q R X} (mc : Machine S Q R) (hframe : ∀ s q, (mc.step s q).1 = s)
+    (mask : S → X) (s : S) (qs : List Q) : mask (mc.run s qs).1 = mask s := by
+  rw [(queries_pure mc hframe s qs).1]
+
+/-- what a memoising query would do: the frame condition fails and so does history independence -/
+example : (⟨fun (s : Nat) (_ : Unit) => (s + 1, s)⟩ : Machine Nat Unit Nat).run 0 [(), ()] = (2, [0, 1]) := by rfl
+example : (⟨fun (s : Nat) (q : Nat) => (s, s + q)⟩ : Machine Nat Nat Nat).run 10 [1, 2, 1] = (10, [11, 12, 11]) := by rfl
+
+/-! ## 11. the grid meshes of `init_2d_grid` / `init_from_depth_image` -/
+
+/-- PROPERTY (quantifier "grids"): the triangle list `subsampled_grid_triangulation` builds for an
+`r × c` grid satisfies the premises of every masking / boundary theorem above — all indices valid,
+three distinct corners per triangle — and has two triangles per cell. -/
+theorem grid_triangulation_wellformed (r c : Nat) :
+    WF (r * c) (gridTriangulation r c) ∧ (∀ t ∈ gridTriangulation r c, t.verts.Nodup) ∧
+    (gridTriangulation r c).length = 2 * ((r - 1) * (c - 1)) :=
+  ⟨grid_wf r c, grid_distinct r c, grid_length r c⟩
+
+example : gridTriangulation 2 3 = [(0, 3, 4), (1, 4, 5), (0, 4, 1), (1, 5, 2)] := by decide
+example : boundarySpec (gridTriangulation 3 3) = [true, false, true, true, true, true, false, true] ∧
+    (uniqueEdges (gridTriangulation 3 3)).length = 16 := by decide
+
+/-! ## 12. histories of queries, masks and copies over mesh objects
+
+`stepH false` is the code in /repo (no query leaves anything on the instance — the regenerated
+obligation `queryWrites_ok`); `stepH true` is the same code with an edge cache on the instance that
+`self.copy()` inside `from_mask` carries to the masked mesh. -/
+
+theorem chunks3_edges (n : Nat) (ts : List Tri) :
+    chunks3 ((edgeIndices ts).map (edgeKey n)) = ts.map (fun t => t.edges.map (edgeKey n)) := by
+  induction ts with
+  | nil => rfl
+  | cons t ts ih =>
+    have h : edgeIndices (t :: ts) = t.edges ++ edgeIndices ts := by simp [edgeIndices]
+    rw [h, List.map_append, List.map_cons, ← ih]
+    rfl
+
+/-- the coded `boundary_tri_index` applied to the edges of the mesh itself is `boundaryCount` -/
+theorem boundFromEdges_eq (n : Nat) (ts : List Tri) :
+    boundFromEdges n (edgeIndices ts) = boundaryCount n ts := by
+  simp only [boundFromEdges, boundaryCount, chunks3_edges, List.map_map]
+  apply List.map_congr_left
+  intro t _
+  simp only [Function.comp, List.any_map]
+  rfl
+
+theorem set_self {α} (l : List α) (i : Nat) (a : α) (h : l[i]? = some a) : l.set i a = l := by
+  apply List.ext_getElem?
+  intro j
+  rw [List.getElem?_set]
+  by_cases hij : i = j
+  · subst hij
+    have : i < l.length := by
+      rcases Nat.lt_or_ge i l.length with h' | h'
+      · exact h'
+      · rw [List.getElem?_eq_none h'] at h; cases h
+    rw [List.getElem?_eq_getElem this] at h
+    simp [this, Option.some.inj h]
+  · simp [hij]
+
+/-- one call of the code in /repo on freshly built objects is one call of the specification -/
+theorem stepH_pure (ms : List (Mesh P C T)) (op : HOp) :
+    stepH false (ms.map Obj.fresh) op = ((stepSpec ms op).1.map Obj.fresh, (stepSpec ms op).2) := by
+  cases op with
+  | edges i =>
+    simp only [stepH, stepSpec, List.getElem?_map]
+    cases h : ms[i]? with
+    | none => simp
+    | some M =>
+      simp only [Option.map_some, edgesOf, Bool.false_eq_true, if_false, Obj.fresh]
+      rw [set_self _ i _ (by simp [List.getElem?_map, h, Obj.fresh])]
+  | bound i =>
+    simp only [stepH, stepSpec, List.getElem?_map]
+    cases h : ms[i]? with
+    | none => simp
+    | some M =>
+      simp only [Option.map_some, boundOf, edgesOf, Bool.false_eq_true, if_false, Obj.fresh, boundFromEdges_eq]
+      rw [set_self _ i _ (by simp [List.getElem?_map, h, Obj.fresh])]
+  | mask i m =>
+    simp only [stepH, stepSpec, List.getElem?_map]
+    cases h : ms[i]? with
+    | none => simp
+    | some M =>
+      simp only [Option.map_some, Obj.fresh]
+      cases fromMask M m with
+      | error e => simp
+      | ok R => simp [Obj.fresh]
+  | trimask i m =>
+    simp only [stepH, stepSpec, List.getElem?_map]
+    cases h : ms[i]? with
+    | none => simp
+    | some M =>
+      simp only [Option.map_some, Obj.fresh]
+      cases fromTriMask M m with
+      | error e => simp
+      | ok R => simp [Obj.fresh]
+  | copy i =>
+    simp only [stepH, stepSpec, List.getElem?_map]
+    cases h : ms[i]? with
+    | none => simp
+    | some M => simp [Obj.fresh]
+
+/-- PROPERTY (histories): every history of geometry queries, masks, triangle masks and copies over
+objects of the code in /repo is the specified history — each query is answered from the arrays of the
+object asked, whatever was queried, masked or copied before (induction over the call sequence). -/
+theorem history_pure (ms : List (Mesh P C T)) (ops : List HOp) :
+    runH false (ms.map Obj.fresh) ops = ((runSpec ms ops).1.map Obj.fresh, (runSpec ms ops).2) := by
+  induction ops generalizing ms with
+  | nil => rfl
+  | cons op ops ih =>
+    simp only [runH, runSpec, stepH_pure, ih]
+
+theorem stepSpec_prefix (ms : List (Mesh P C T)) (op : HOp) (i : Nat) (hi : i < ms.length) :
+    (stepSpec ms op).1[i]? = ms[i]? := by
+  cases op <;> simp only [stepSpec] <;> (repeat' split) <;>
+    first | rfl | simp [List.getElem?_append_left hi]
+
+theorem stepSpec_length_le (ms : List (Mesh P C T)) (op : HOp) : ms.length ≤ (stepSpec ms op).1.length := by
+  cases op <;> simp only [stepSpec] <;> (repeat' split) <;> simp
+
+/-- PROPERTY ("masking never mutates its receiver", over whole histories): no call changes an
+object that exists — masks and copies only ever add objects. -/
+theorem history_objects_never_change (ms : List (Mesh P C T)) (ops : List HOp) (i : Nat) (hi : i < ms.length) :
+    (runSpec ms ops).1[i]? = ms[i]? ∧ (runH false (ms.map Obj.fresh) ops).1[i]? = (ms.map Obj.fresh)[i]? := by
+  have key : ∀ (ops : List HOp) (ms : List (Mesh P C T)), i < ms.length → (runSpec ms ops).1[i]? = ms[i]? := by
+    intro ops
+    induction ops with
+    | nil => intro ms _; rfl
+    | cons op ops ih =>
+      intro ms hi
+      simp only [runSpec]
+      rw [ih _ (Nat.lt_of_lt_of_le hi (stepSpec_length_le ms op)), stepSpec_prefix ms op i hi]
+  refine ⟨key ops ms hi, ?_⟩
+  rw [history_pure, List.getElem?_map, List.getElem?_map, key ops ms hi]
+
+/-- REFUTATION of the memoising variant (a cache left on the instance by `edge_indices`, carried to
+the masked mesh by `self.copy()` and never invalidated): query, mask, query — the masked mesh
+answers with the edges, and the boundary flags, of the mesh it was masked from. -/
+theorem history_memo_refuted :
+    (runH true [Obj.fresh exMesh] [.edges 0, .mask 0 exMask2, .edges 1, .bound 1]).2
+      ≠ (runSpec [exMesh] [.edges 0, .mask 0 exMask2, .edges 1, .bound 1]).2 ∧
+    (runH true [Obj.fresh exMesh] [.mask 0 exMask2, .edges 1, .bound 1]).2
+      = (runSpec [exMesh] [.mask 0 exMask2, .edges 1, .bound 1]).2 := by
+  decide
+
+example : (runSpec [exMesh] [.edges 0, .mask 0 exMask2, .edges 1, .bound 1, .copy 1, .trimask 2 [true, false]]).2 =
+    [.edges [(0, 1), (1, 2), (2, 0), (1, 3), (3, 2), (2, 1), (4, 5), (5, 6), (6, 4)],
+     .made { pts := [11, 12, 13, 14, 15, 16], cols := [21, 22, 23, 24, 25, 26], tcs := [31, 32, 33, 34, 35, 36],
+             tris := [(0, 2, 1), (3, 4, 5)] },
+     .edges [(0, 2), (2, 1), (1, 0), (3, 4), (4, 5), (5, 3)], .bits [true, true],
+     .made { pts := [11, 12, 13, 14, 15, 16], cols := [21, 22, 23, 24, 25, 26], tcs := [31, 32, 33, 34, 35, 36],
+             tris := [(0, 2, 1), (3, 4, 5)] },
+     .made { pts := [11, 12, 13], cols := [21, 22, 23], tcs := [31, 32, 33], tris := [(0, 2, 1)] }] := by decide
+
 
 end MenpoModel.C17
